@@ -65,7 +65,7 @@ CandsRel(s, sc, rn) ==
      ELSE {})
     \cup (IF On(sc, "reorder:" \o rn)
      THEN UNION {{[op |-> "reorder", rel |-> rn, p |-> p, seq |-> q] :
-                     q \in (IF Len(s[r.list][p]) <= 3 THEN Perms(s[r.list][p]) ELSE {s[r.list][p]})
+                     q \in (IF Len(s[r.list][p]) <= 4 THEN Perms(s[r.list][p]) ELSE {s[r.list][p]})
                            \cup BadSeqs(s[r.list][p], X \ SeqSet(s[r.list][p]))} : p \in P}
      ELSE {})
 
